@@ -112,7 +112,7 @@ Definition crop (t : term) (layers : list (Z * Z)) : term :=
   let h := fold_left Z.max (map snd layers) (zlen ls) in
   set_bh (set_lh (set_lines t ls) h) h.
 
-Inductive tout := TOk (t : term) (layers : list (Z * Z)) | TErr | TPanic (site : Z) | TOverflow.
+Inductive tout := TOk (t : term) (layers : list (Z * Z)) | TErr | TPanic (site : Z).
 Definition epilogue (fw fh : Z) (done : list sixel) (serr : bool) (t : term) : tout :=
   match sixel_epilogue_e fw fh done serr with
   | ROk (Some layers) => TOk (crop t layers) layers
@@ -128,7 +128,6 @@ Definition load_ansi_like (e : emu) (music : Z) (bs : bool) (s : option fsauce) 
   match run e (file_mach (file_term 80 25 s [] 7 0 (sauce_ice s)) (file_pst music bs s)) cs with
   | RunOk m => epilogue fw fh done serr (mt m)
   | RunPanic site => TPanic site
-  | RunDiverge => TOverflow
   end.
 (* Seq::load_buffer: Buffer::new((40, 25)), every cell of the 40 x 25 area set to (' ', fg 14, bg 6) BEFORE set_sauce *)
 Definition seq_rows : list (list cell) := repeat (repeat (32, 6) 40%nat) 25%nat.
@@ -136,14 +135,12 @@ Definition load_seq (s : option fsauce) (cs : list Z) : tout :=
   match run_petscii (file_mach (file_term 40 25 s seq_rows 14 6 false) (file_pst 0 false s)) cs with
   | RunOk m => TOk (mt m) []
   | RunPanic site => TPanic site
-  | RunDiverge => TOverflow
   end.
 (* Atascii::load_buffer: Buffer::new((40, 24)): Layer::new pre-allocates 24 rows of Line::create(40) *)
 Definition load_ata (s : option fsauce) (cs : list Z) : tout :=
   match run EAtascii (file_mach (file_term 40 24 s (repeat (line_create 40) 24%nat) 7 0 false) (file_pst 0 false s)) cs with
   | RunOk m => TOk (mt m) []
   | RunPanic site => TPanic site
-  | RunDiverge => TOverflow
   end.
 
 Inductive tfmt := TAns | TAvt | TPcb | TAsc | TMsg | TRen | TSeq | TAta.
